@@ -23,7 +23,7 @@ class StubFilter:
         self.matrix = matrix
 
     def matches(self, task):
-        return self.matrix[(task.name, self.idx)]
+        return self.matrix[(id(task), self.idx)]
 
 
 def groupings(n):
@@ -56,16 +56,20 @@ def filter_structure(sl):
     for kind, idxs in shape:
         schedule.append(leaves[idxs[0]] if kind == "task" else track.Parallel([leaves[i] for i in idxs]))
     ch = track.Challenge("c", schedule=list(schedule), default=True)
-    tr = track.Track("t", challenges=[ch])
+    # task names are unique per challenge only: a second challenge reuses a name for a different task
+    twin = track.Task("leaf0", track.Operation("other-op", "search"), clients=3)
+    ch2 = track.Challenge("d", schedule=[twin])
+    tr = track.Track("t", challenges=[ch, ch2])
     include = bool(fresh_bool("include_mode"))
-    matrix = {(leaves[i].name, f): fresh_bool("match_l%d_f%d" % (i, f)) for i in range(n) for f in range(nf)}
+    matrix = {(id(leaves[i]), f): fresh_bool("match_l%d_f%d" % (i, f)) for i in range(n) for f in range(nf)}
+    matrix.update({(id(twin), f): fresh_bool("match_twin_in_second_challenge_f%d" % f) for f in range(nf)})
     cfg = StubCfg({("track", "include.tasks" if include else "exclude.tasks"): ["placeholder%d" % f for f in range(nf)]})
     proc = loader.TaskFilterTrackProcessor(cfg)
     observe("mode taken from the configuration", proc.exclude == (not include))
     proc.filters = [StubFilter(f, matrix) for f in range(nf)]
     proc.on_after_load_track(tr)
     # concrete view of the match relation on this path (forks only where the code has not looked yet)
-    matched = [any(bool(matrix[(leaves[i].name, f)]) for f in range(nf)) for i in range(n)]
+    matched = [any(bool(matrix[(id(leaves[i]), f)]) for f in range(nf)) for i in range(n)]
     expect = [i for i in range(n) if matched[i] == include]
     survivors = []
     for e in ch.schedule:
@@ -89,6 +93,9 @@ def filter_structure(sl):
     observe("elements keep their order", el_of == sorted(el_of))
     observe("surviving elements are the original objects", all(any(e is o for o in schedule) for e in ch.schedule))
     check_allocator(list(ch.schedule), obs=lambda label, cond: observe("filtered schedule is runnable: " + label, cond))
+    twin_matched = any(bool(matrix[(id(twin), f)]) for f in range(nf))
+    observe("every challenge is filtered on its own tasks (a task of another challenge with the same name does not decide)",
+            [t for t in ch2.schedule] == ([twin] if twin_matched == include else []))
 
 
 TAGS = [None, "a", "ab", ["a", "b"], ["ab"], []]
@@ -117,10 +124,16 @@ def filter_semantics(sl):
     other = track.Task("other", track.Operation("op2", "force-merge"), tags=["zzz"])
     sched = [track.Parallel([t, other])] if nested else [t, other]
     ch = track.Challenge("c", schedule=sched, default=True)
-    tr = track.Track("t", challenges=[ch])
+    # another challenge uses the same task name for a task of the other type with other tags
+    optype2, tags2 = ("search" if optype == "bulk" else "bulk"), (["b"] if tags in (None, "a", []) else None)
+    t2 = track.Task(name, track.Operation("op3", optype2), tags=tags2)
+    ch2 = track.Challenge("d", schedule=[t2])
+    tr = track.Track("t", challenges=[ch, ch2] if bool(fresh_bool("selected_challenge_first")) else [ch2, ch])
     cfg = StubCfg({("track", "include.tasks" if include else "exclude.tasks"): [spec]})
     loader.TaskFilterTrackProcessor(cfg).on_after_load_track(tr)
     m = documented_match(name, optype, tags, spec)
+    observe("in every challenge: a task with the same name but another type / other tags is judged on its own attributes",
+            (t2 in ch2.schedule) == (documented_match(name, optype2, tags2, spec) == include))
     left = [x for e in ch.schedule for x in e]
     core.note("task", (name, optype, tags))
     core.note("filter", (spec, "include" if include else "exclude"))
